@@ -271,6 +271,7 @@ def call(fn, *a, **k):
 
 def run_case(case, ctx):
     P, PE = ctx.P, ctx.PE
+    ctx.M1.lambdas.clear()         # the registry keeps every lambda (and through it the names of its evaluation - two 10000-element containers) alive
     kind = case[0]
     if kind == 'lamarg':
         ctx.inside[:] = [0, None]
